@@ -387,6 +387,36 @@ def run(ctx):
         if not is_int(y):
             bad.setdefault("nonint:" + c["op"], ("%s returns non-integers on integer data" % c["op"], {"kind": "oracle", "case": describe(c)}))
         done.append(dict(expr=r["expr"], case=c, cls=cls, kind="main"))
+    # mixed dtypes: a REAL first array with a COMPLEX second one.  The result is complex; the library's buffers take the dtype
+    # of the first array, so it rejects the call (numpy casting error) -- "computed correctly or rejected": a returned array must
+    # equal the definition
+    n_mixed = {"rejected": 0, "computed": 0}
+    for k in range(ctx.n(40, 600)):
+        c = gen_case(rng)
+        if c["mode"] == "valid" and relation(c) == "n>m":
+            continue
+        osh = oshape_doc(c)
+        sh1 = c["dshape"] if c["op"] == "convolve" else osh
+        sh2 = c["fshape"] if c["op"] in ("convolve", "data_adjoint") else c["dshape"]
+        a, f = intarr(rng, sh1, False), intarr(rng, sh2, True)
+        if not np.any(np.imag(f) != 0):
+            continue
+        try:
+            r = run_case(sp, rng, dict(c, cplx="rc"), arrays=(a, f))
+        except Exception:
+            n_mixed["rejected"] += 1
+            ctx.count("mixed-dtype:%s:rejected" % c["op"], key=json.dumps(describe(c), sort_keys=True) + str(k), nontrivial=False)
+            continue
+        n_mixed["computed"] += 1
+        y, ref = r["y"], r["ref"]
+        ctx.count("mixed-dtype:%s:computed" % c["op"], key=json.dumps(describe(c), sort_keys=True) + str(k), nontrivial=True)
+        if list(y.shape) != list(ref.shape) or not np.allclose(y, ref, rtol=0, atol=1e-9):
+            bad.setdefault("oracle:mixed-dtype:" + c["op"],
+                           ("%s of a real array with a complex one returns values that differ from the convolution definition instead of "
+                            "rejecting the call (%s)" % (c["op"], cls_of(c)),
+                            {"kind": "oracle", "case": dict(describe(c), cplx="rc"), "in1": repr(a.tolist()), "in2": repr(f.tolist()),
+                             "observed": repr(y.tolist()), "expected": repr(ref.tolist())}))
+    ctx.coverage["mixed_dtype_calls"] = n_mixed
     # dot tests / bilinearity on the same shapes (complex floats)
     n_dot = 0
     seen_shapes = set()
